@@ -435,3 +435,68 @@ def _pithist_expected():
 s, c, p = _pithist_expected()
 register(Obligation("verif.metric.PitHistDev.expected_deviation#POST:definition", ("C08",), s, c, p, modules=MOD,
                     functions=["verif.metric.PitHistDev.expected_deviation", "verif.metric.PitHistDev.deviation_std"]))
+
+
+# ------------------------------------------------------------------ PIT histogram statistics (np.histogram by its assumed contract)
+def _pit_bins(S, inp, B):
+    """relative frequencies of the B equally wide bins of [0,1] (half-open, the last one closed), as the definition counts them"""
+    edges = [float(e) for e in _np.linspace(0, 1, B + 1)]
+    counts = []
+    for k in range(B):
+        lo, hi, last = edges[k], edges[k + 1], k == B - 1
+        counts.append(S.to_num(S.count_where(inp.pit, lambda i, lo=lo, hi=hi, last=last:
+                                             S.and_(S.at(inp.pit, i) >= lo, (S.at(inp.pit, i) <= hi) if last else (S.at(inp.pit, i) < hi)))))
+    total = sum(counts[1:], counts[0])
+    return edges, counts, total
+
+
+def _pithist(which):
+    B = 10
+
+    def setup(G):
+        return Bag(pit=G.array("pit", ("n",), kinds=(FIN,), min_size=1, between=(0.0, 1.0)), rec={})
+
+    def call(inp):
+        data = ProbData(other={verif.field.Pit: inp.pit})
+        inp.rec["data"] = data
+        if which == "deviation":
+            return verif.metric.PitHistDev.deviation(inp.pit, B)
+        m = {"dev": verif.metric.PitHistDev, "slope": verif.metric.PitHistSlope, "shape": verif.metric.PitHistShape}[which]()
+        return m.compute_single(data, 0, verif.axis.Leadtime(), 1, None)
+
+    def post(S, inp, out):
+        edges, counts, total = _pit_bins(S, inp, B)
+        n = S.to_num(S.count(inp.pit))
+        f = [c / total for c in counts]
+        goals = []
+        if which in ("deviation", "dev"):
+            D = S.sqrt(1.0 / B * sum(((fk - 1.0 / B) ** 2 for fk in f[1:]), (f[0] - 1.0 / B) ** 2))
+            if which == "deviation":
+                goals.append(("DEF:rms-departure-of-the-bin-frequencies-from-1/B", S.same(out, D)))
+            else:
+                D0 = S.sqrt((1.0 - 1.0 / B) / (n * B))
+                goals.append(("DEF:deviation-over-expected-deviation", S.same(out, D / D0)))
+        else:
+            centers = [(edges[k] + edges[k + 1]) / 2 for k in range(B)]
+            d = [(f[k + 1] - f[k]) / (centers[k + 1] - centers[k]) for k in range(B - 1)]
+            if which == "slope":
+                goals.append(("DEF:mean-first-difference-quotient-of-the-bin-frequencies", S.same(out, sum(d[1:], d[0]) / (B - 1))))
+            else:
+                c2 = [(centers[k] + centers[k + 1]) / 2 for k in range(B - 1)]
+                dd = [(d[k + 1] - d[k]) / (c2[k + 1] - c2[k]) for k in range(B - 2)]
+                goals.append(("DEF:mean-second-difference-quotient-of-the-bin-frequencies", S.same(out, sum(dd[1:], dd[0]) / (B - 2))))
+        if which != "deviation":
+            req = inp.rec["data"].requests
+            goals.append(("requests-the-pit-field-of-the-same-slice", len(req) == 1 and req[0] == ([("Pit", None)], 0, verif.axis.Leadtime(), 1)))
+        # every PIT value in [0,1] falls in exactly one bin
+        goals.append(("bins-partition-[0,1]:the-bin-counts-add-up-to-the-number-of-cases", S.lin_zero([(1, c) for c in counts] + [(-1, n)])))
+        return goals
+    return setup, call, post
+
+
+for _w, _fn in (("deviation", "verif.metric.PitHistDev.deviation"), ("dev", "verif.metric.PitHistDev.compute_single"),
+                ("slope", "verif.metric.PitHistSlope.compute_single"), ("shape", "verif.metric.PitHistShape.compute_single")):
+    s, c, p = _pithist(_w)
+    register(Obligation(_fn + "#POST:definition", ("C08",), s, c, p, modules=MOD, functions=[_fn],
+                        assumptions=["np.histogram(values, edges): count per bin [e_k, e_k+1), last bin closed (assumed contract)",
+                                     "bin edges are NumPy's linspace(0,1,11) as binary floating-point numbers, in the code and in the definition alike"]))
